@@ -3,6 +3,7 @@ package rules
 import (
 	"fmt"
 	"go/ast"
+	"go/token"
 	"go/types"
 	"strings"
 
@@ -315,3 +316,155 @@ func firstKey(s lockset.Set) string {
 	}
 	return best
 }
+
+// INNER-FILLED-BEFORE-HANDOVER: a group/window subject gets its opening value before downstream sees it.
+func ruleInnerFilledBeforeHandover() check.Rule {
+	return check.Rule{
+		Name:        "INNER-FILLED-BEFORE-HANDOVER",
+		NeedControl: true,
+		Doc:         "in a callback of a higher-order operator that creates an inner subject, pushes the current value into it and emits the subject to the destination (GroupBy's first value of a key), the push precedes the emission on every path: the emission runs the downstream synchronously, and a downstream that ends the stream of inner observables during the hand-over (Take(n) on the groups) makes the operator's teardown complete the inner subject — a value pushed afterwards is refused and lost",
+		Run: func(c *check.Ctx) {
+			m := c.M
+			n := 0
+			for _, sc := range m.SCs {
+				armed := c.Armed(sc)
+				info := sc.Pkg.TypesInfo
+				ast.Inspect(sc.Lit.Body, func(x ast.Node) bool {
+					lit, ok := x.(*ast.FuncLit)
+					if !ok {
+						return true
+					}
+					// inner subjects created in this literal
+					created := map[types.Object]bool{}
+					ast.Inspect(lit.Body, func(y ast.Node) bool {
+						if l, ok := y.(*ast.FuncLit); ok && l != lit {
+							return false
+						}
+						as, ok := y.(*ast.AssignStmt)
+						if !ok || as.Tok != token.DEFINE || len(as.Lhs) != 1 || len(as.Rhs) != 1 {
+							return true
+						}
+						call, ok := ast.Unparen(as.Rhs[0]).(*ast.CallExpr)
+						if !ok {
+							return true
+						}
+						if t := info.TypeOf(call); t != nil && m.Obj.Subject != nil {
+							if nt, ok := t.(*types.Named); ok && nt.Origin().Obj() == m.Obj.Subject {
+								if id, ok := as.Lhs[0].(*ast.Ident); ok {
+									created[info.Defs[id]] = true
+								}
+							}
+						}
+						return true
+					})
+					if len(created) == 0 {
+						return true
+					}
+					for s := range created {
+						var pushes, emits []ast.Node
+						ast.Inspect(lit.Body, func(y ast.Node) bool {
+							if l, ok := y.(*ast.FuncLit); ok && l != lit {
+								return false
+							}
+							call, ok := y.(*ast.CallExpr)
+							if !ok {
+								return true
+							}
+							name, isObs := m.Obj.ObserverMethods[model.Callee(info, call)]
+							if !isObs || notifKind(name) != model.EmitNext {
+								return true
+							}
+							sel, ok := ast.Unparen(call.Fun).(*ast.SelectorExpr)
+							if !ok {
+								return true
+							}
+							if id, ok := ast.Unparen(sel.X).(*ast.Ident); ok && objOf(info, id) == s {
+								pushes = append(pushes, call)
+								return true
+							}
+							for _, a := range call.Args {
+								if id, ok := ast.Unparen(a).(*ast.Ident); ok && objOf(info, id) == s {
+									emits = append(emits, call)
+								}
+							}
+							return true
+						})
+						for _, e := range emits {
+							for _, p := range pushes {
+								n++
+								key := fmt.Sprintf("%s/inner-%s/filled-before-handover#%d", sc, s.Name(), n)
+								if reachableAfter(lit.Body, e, p) {
+									c.Report(armed, key, p.Pos(), "the value is pushed into the new inner subject %s after the subject has been emitted to the destination: a downstream that ends the outer stream during that emission makes the teardown complete %s first, and the value is lost", s.Name(), s.Name())
+								} else if armed {
+									c.OK(key, p.Pos(), "the inner subject receives its opening value before it is handed downstream")
+								}
+							}
+						}
+					}
+					return true
+				})
+			}
+			c.Inc("inner_handover_pairs", n)
+		},
+	}
+}
+
+// NO-TRYLOCK-SKIP: an operator never gives up its work because a lock is busy.
+func ruleNoTryLockSkip() check.Rule {
+	return check.Rule{
+		Name:        "NO-TRYLOCK-SKIP",
+		NeedControl: true,
+		Doc:         "inside the subscribe closures of operators no `TryLock()` decides whether work is done: an operator that returns when a lock is busy leaves the value it was given in a buffer to be delivered later by another goroutine (Next returns before downstream has seen its output, the buffer is unbounded) or drops a flush. Dropping under contention is the documented behaviour of the eventually-safe subscriber only (subscriberImpl, outside this rule)",
+		Run: func(c *check.Ctx) {
+			m := c.M
+			n := 0
+			for _, sc := range m.SCs {
+				armed := c.Armed(sc)
+				info := sc.Pkg.TypesInfo
+				k := 0
+				ast.Inspect(sc.Lit.Body, func(x ast.Node) bool {
+					call, ok := x.(*ast.CallExpr)
+					if !ok {
+						return true
+					}
+					sel, ok := ast.Unparen(call.Fun).(*ast.SelectorExpr)
+					if !ok || sel.Sel.Name != "TryLock" || len(call.Args) != 0 {
+						return true
+					}
+					if t := info.TypeOf(call); t == nil || !types.Identical(t.Underlying(), types.Typ[types.Bool]) {
+						return true
+					}
+					n++
+					k++
+					c.Report(armed, fmt.Sprintf("%s/trylock#%d", sc, k), call.Pos(), "TryLock inside an operator: when the lock is busy the work this call stands for (a flush, a delivery) is skipped or left to another goroutine, so Next returns before downstream has received the output it gives rise to")
+					return true
+				})
+			}
+			c.Inc("trylock_sites", n)
+		},
+	}
+}
+
+const controlsC05c = `
+func verifControlGroupHandover[T any]() func(Observable[T]) Observable[Observable[T]] {
+	return func(source Observable[T]) Observable[Observable[T]] {
+		return NewUnsafeObservableWithContext(func(subscriberCtx context.Context, destination Observer[Observable[T]]) Teardown {
+			var mu sync.Mutex
+			sub := source.SubscribeWithContext(subscriberCtx, NewObserverWithContext(
+				func(ctx context.Context, value T) {
+					if !mu.TryLock() {
+						return
+					}
+					defer mu.Unlock()
+					group := NewUnicastSubject[T](UnicastSubjectUnlimitedBufferSize)
+					destination.NextWithContext(ctx, group)
+					group.NextWithContext(ctx, value)
+				},
+				destination.ErrorWithContext,
+				destination.CompleteWithContext,
+			))
+			return sub.Unsubscribe
+		})
+	}
+}
+`
